@@ -1931,6 +1931,12 @@ def tag_fn(ctx: "Wtp", token: str) -> None:
     # Note: <nowiki> and HTML comments have already been handled in
     # preprocessing
 
+    # <noinclude/> is only a marker that keeps wikitext constructions from
+    # being parsed (to_wikitext() writes "[<noinclude/>[" for a literal
+    # "[[").  It has done its job; drop it also inside template arguments.
+    if re.fullmatch(r"(?i)<noinclude\s*/>", token):
+        return
+
     # There are strings like <<country>> in some template arguments
     if (
         token.startswith("<<")
